@@ -69,24 +69,6 @@ fn c15_q_frame_propagates_layer_error() {
     frame_with_one_chunk_fails(0x2004, &p);
 }
 
-#[kani::proof]
-#[kani::unwind(9)]
-#[kani::stub(alloc::fmt::format, crate::vklib::empty_format)]
-#[kani::stub(std::hash::RandomState::new, crate::vklib::fixed_random_state)]
-#[kani::stub(crate::reader::AseReader::unzip, crate::vklib::stub_unzip_identity)]
-fn c15_t_frame_propagates_cel_type_error() {
-    let mut p = Vec::new();
-    put16(&mut p, 0);
-    put_any(&mut p, 5);
-    let ty: u16 = kani::any();
-    kani::assume(ty > 3);
-    put16(&mut p, ty);
-    put_zeros(&mut p, 7);
-    put16(&mut p, 1); // declared size 1x1 (concrete: the supported-type arms are explored by symex too)
-    put16(&mut p, 1);
-    put_any(&mut p, 4);
-    frame_with_one_chunk_fails(0x2005, &p);
-}
 
 #[kani::proof]
 #[kani::unwind(9)]
